@@ -17,7 +17,7 @@ EXPLANATION = [
     'column by the *negotiated* SC flag and the display flag by role, takes the Just Works shortcut iff neither side asks for MITM; '
     'both call sites pass (initiator IO, responder IO) in that order and SC is the AND of both sides.',
     'C13.auth-flag: `authenticated` is a predicate of pairing_method that is false for JUST_WORKS (exhaustive over the enum) and every stored key takes it.',
-    'C13.fail-sym: SMP_Pairing_Failed_Command is constructed only in send_pairing_failed, which also fails locally; on_pairing_failure '
+    'C13.fail-sym: SMP_Pairing_Failed_Command is constructed only in send_pairing_failed, which also fails locally; Session.on_pairing_failure (local-only failure) is called only from send_pairing_failed, the handler of the peer\'s Pairing Failed and on_disconnection; on_pairing_failure '
     'and on_pairing are idempotent through `completed`.',
     'C13.checks: every check_expected_value result is tested and its false branch leaves before encryption starts or keys are used.',
     'C13.slots: the legacy LTK slots written by on_pairing agree with the readers (Device.encrypt uses ltk_central as central, '
@@ -168,6 +168,17 @@ def fail_sym(ctx):
     of = ci.methods.get('on_pairing_failure')
     if of is not None:
         R.check('self.pairing_result.set_exception(error)' in norm(of) and 'self.manager.on_pairing_failure(self, reason)' in norm(of), rule, f'{S}.on_pairing_failure | reports', 'pair() caller and manager are told', 'failure is not reported to the waiting pair() call / manager', p.loc(of))
+    # who may fail only locally: the handler of the peer's Pairing Failed (the peer already knows) and send_pairing_failed
+    # (which has just told it); every other place that gives up must go through send_pairing_failed
+    LOCAL_ONLY = {'send_pairing_failed': 'has just sent Pairing Failed', 'on_smp_pairing_failed_command': 'the peer declared the failure',
+                  'on_disconnection': 'the link is gone: nobody to tell'}
+    callers = [(q, c) for fn in [x for x in ast.walk(m.tree) if isinstance(x, FUNC)] for c in calls_in(fn, include_lambda=True) if dotted(c.func) == 'self.on_pairing_failure' for q in [p.qual_of(fn)]]
+    callers = [(q, c) for q, c in callers if q.startswith(S + '.')]
+    for q, c in callers:
+        top = q[len(S) + 1:].split('.')[0]
+        R.check(top in LOCAL_ONLY, rule, f'{q} | local-only failure', f'fails the session without telling the peer: {LOCAL_ONLY.get(top, "")}',
+                f'{q} gives up locally (on_pairing_failure) without sending Pairing Failed: the peer keeps waiting for the next step and its pair() never ends', p.loc(c))
+    R.check(len(callers) >= 2, rule, f'{S} | local failure sites', f'{len(callers)} call sites of Session.on_pairing_failure', f'only {len(callers)} call sites found')
     pf = ci.methods.get('on_smp_pairing_failed_command')
     if pf is not None:
         R.check('self.on_pairing_failure(' in norm(pf), rule, f'{S}.on_smp_pairing_failed_command', 'a failure from the peer fails the local session', 'Pairing Failed from the peer does not fail the local session', p.loc(pf))
